@@ -1,6 +1,189 @@
-import OpusModel.RangeCoder
+import OpusProofs.RangeCoderRoundTrip
+import OpusProofs.RangeCoderStageA2
+import OpusProofs.RangeCoderBudget
+/-
+  Property C08 — "Range coder: the decoder inverts the encoder symbol for symbol, within budget".
+
+  Model:  `Opus.RangeCoder`  (OpusModel/RangeCoder.lean: transcription of celt/entenc.c, celt/entdec.c,
+          celt/entcode.c/.h; one `Ctx` mirroring `struct ec_ctx`; `Op` = one call with its arguments;
+          `encOp`/`decOp` the encoder / mirrored decoder call; `encodeAll` = `ec_enc_init`, the calls,
+          `ec_enc_done`).
+  Every theorem quantifies over ALL operation lists (no length bound), ALL buffer contents and sizes.
+
+  Vocabulary (OpusProofs/RangeCoder*.lean):
+    `RngOk c`          2^23 < c.rng ≤ 2^31
+    `Op.Legal`         documented parameter domain of one call (ft ≤ 2^16, logp 1..15, 1..25 raw bits, …)
+    `Op.LegalAt c op`  `Op.Legal`, plus for `ec_enc_shrink` its assert and "only shrinks";
+                       `ec_enc_patch_initial_bits` is excluded (see `UNPROVED` in tools/props/C08.py)
+    `LegalRun c ops`   every operation of the list is `LegalAt` the state it is applied to
+    `MatchAll ops xs`  the decoder's return values `xs` are, one by one, the values `ops` encoded
+    `DecAll B S e d`   invariant D: decoder `d` reading the `S`-byte stream `B` mirrors encoder `e`
+                       (same rng, same nbits_total, val = top − code, same raw-bit position, error 0)
+-/
 namespace OpusProps.C08
 open Opus Opus.RangeCoder
-/-- placeholder while the proofs are being written -/
-theorem init_rng (buf : List Nat) (n : Nat) : (encInit buf n).rng = 2147483648 := rfl
+
+/-! ## Stage A — range invariant and bit accounting (independent of buffer space and errors) -/
+
+/-- "rng stays in (2^23, 2^31]": a fresh encoder is normalised and every legal encoder call keeps
+    the range normalised, whatever the buffer state and the error flag. -/
+theorem rng_normalised (buf : List Nat) (size : Nat) (c : Enc) (op : Op) (hr : RngOk c) (hl : op.Legal) :
+    RngOk (encInit buf size) ∧ RngOk (encOp c op) :=
+  ⟨encInit_rngOk buf size, (encOp_stageA c op hr hl).1⟩
+
+example : RngOk (encOp (encInit [0, 0, 0, 0] 4) (.encode 65535 65536 65536)) ∧
+    (Op.encode 65535 65536 65536).Legal := by decide +kernel
+
+/-- "the fractional count upper-bounds the whole count consistently": for every normalised range and
+    every `nbits_total` an `int` can hold after `<<3`, `8·ec_tell − 7 ≤ ec_tell_frac ≤ 8·ec_tell`,
+    i.e. `ec_tell = ⌈ec_tell_frac / 8⌉`. -/
+theorem tell_frac_bounds (c : Ctx) (hr : RngOk c) (hn : 33 ≤ c.nbitsTotal) (hn2 : c.nbitsTotal < 536870912) :
+    8 * tell c - 7 ≤ (tellFrac c : Int) ∧ (tellFrac c : Int) ≤ 8 * tell c :=
+  tellFrac_bounds c hr hn hn2
+
+example : RngOk (encInit [] 0) ∧ tell (encInit [] 0) = 1 ∧ tellFrac (encInit [] 0) = 8 := by decide +kernel
+
+/-- "exhaustively for the fractional-bit formula over every range value class": the table-driven
+    `ec_tell_frac` that is compiled (`#if 1`) equals the reference definition by iterated squaring
+    (`#else` branch) for every value of the 16 leading bits of `rng` — 2^15 classes, each evaluated in
+    the kernel — hence for every `rng ≥ 2^15`. -/
+theorem tell_frac_formula (c : Ctx) (hr : 32768 ≤ c.rng) :
+    (∀ r, 32768 ≤ r → r < 65536 → fracTable r = fracSquare r) ∧
+    tellFrac c = sub32 (u32 (c.nbitsTotal * 8)) (ilog c.rng * 8 + fracSquare (c.rng / 2 ^ (ilog c.rng - 16))) :=
+  ⟨fun _ h1 h2 => (frac_facts h1 h2).1, tellFrac_formula c hr⟩
+
+/-- "the fractional count never decreases" (and neither does the whole count): one legal encoder call
+    never lowers `ec_tell` or `ec_tell_frac`. -/
+theorem tell_monotone (c : Enc) (op : Op) (hr : RngOk c) (hl : op.Legal) (hn : 33 ≤ c.nbitsTotal)
+    (hn2 : (encOp c op).nbitsTotal < 536870912) :
+    tell c ≤ tell (encOp c op) ∧ tellFrac c ≤ tellFrac (encOp c op) :=
+  encOp_tell_mono c op hr hl hn hn2
+
+example : tellFrac (encInit [0, 0] 2) < tellFrac (encOp (encInit [0, 0] 2) (.bitLogp 1 3)) := by decide +kernel
+
+/-! ## Stages B and C — the decoder inverts the encoder -/
+
+/-
+  Full statement (the property as written, including `ec_enc_patch_initial_bits`):
+
+    theorem decode_encode (buf size ops) (hs : size ≤ buf.length) (hb : BytesOk buf)
+        (hl : every op legal where applied, `patchInitial v n` allowed when the first operation was
+              `encodeBin fl (fl+1) n`)
+        (herr : (encodeAll buf size ops).error = 0) :
+        decoding the first `storage` bytes with the same calls returns the encoded values, the first
+        value being the last patched one
+
+  Proved below: the same statement for operation lists without `ec_enc_patch_initial_bits`
+  (all other eight operation kinds, any interleaving, `ec_enc_shrink` included).
+-/
+
+/-- "if the encoder reports no error then decoding the buffer with the same sequence of calls returns
+    exactly the encoded values": for every list of operations — frequency-table symbols, power-of-two
+    tables, inverse-CDF symbols (8- and 16-bit tables), log-probability bits, uniform integers up to
+    2^32−1, raw bits, buffer shrinking, in any interleaving — each legal where it is applied, written
+    into a buffer of any size with any initial content: if `ec_enc_done` leaves `error = 0` (and
+    `nbits_total`, a C `int`, stayed below 2^32), then decoding the first `storage` bytes with the
+    same calls returns exactly the encoded values and the decoder's error flag stays clear.
+    MISSING for the full statement: operation lists containing `ec_enc_patch_initial_bits`. -/
+theorem decode_encode_partial (buf : List Nat) (size : Nat) (ops : List Op) (hs : size ≤ buf.length)
+    (hb : BytesOk buf) (hl : LegalRun (encInit buf size) ops)
+    (hn : (encodeAll buf size ops).nbitsTotal < 4294967296)
+    (herr : (encodeAll buf size ops).error = 0) :
+    MatchAll ops (decRun (decInit ((encodeAll buf size ops).buf.take (encodeAll buf size ops).storage)
+      (encodeAll buf size ops).storage) ops).1 ∧
+    (decRun (decInit ((encodeAll buf size ops).buf.take (encodeAll buf size ops).storage)
+      (encodeAll buf size ops).storage) ops).2.error = 0 :=
+  ⟨(decode_encode_all buf size ops hs hb hl hn herr).1, (decode_encode_all buf size ops hs hb hl hn herr).2.err⟩
+
+/-- A 40-operation stream in an 11-byte buffer: symbols of every kind interleaved with raw bits,
+    a 26-bit uniform integer and a shrink from 12 to 11 bytes. -/
+def exampleOps : List Op :=
+  [.bitLogp 1 1, .encode 3 5 10, .bits 5 3, .icdf 1 [3, 1, 0] 2, .encodeBin 7 8 4, .bitLogp 0 15,
+   .uint 41234567 50000000, .icdf16 2 [40000, 20000, 5, 0] 16, .bits 1 1, .encode 0 65535 65536,
+   .bitLogp 1 2, .bitLogp 0 2, .encode 9 10 10, .shrink 11, .bits 2 2, .uint 1 2, .uint 1 3,
+   .encodeBin 0 1 1, .icdf 0 [1, 0] 1, .bitLogp 0 1, .encode 1 2 3, .encode 2 3 3, .bits 0 1,
+   .encodeBin 3 4 2, .bitLogp 1 4, .uint 0 3, .icdf 2 [3, 1, 0] 2, .encode 5 6 7, .bits 1 1,
+   .bitLogp 0 3, .encode 0 2 4, .uint 7 9, .encodeBin 1 2 1, .bits 3 2, .bitLogp 0 1, .icdf 1 [1, 0] 1,
+   .encode 1 3 4, .bitLogp 1 1, .uint 2 4, .bits 1 1]
+
+example : exampleOps.length = 40 ∧ LegalRun (encInit (List.replicate 12 170) 12) exampleOps ∧
+    (encodeAll (List.replicate 12 170) 12 exampleOps).error = 0 ∧
+    (encodeAll (List.replicate 12 170) 12 exampleOps).storage = 11 ∧
+    (encodeAll (List.replicate 12 170) 12 exampleOps).nbitsTotal < 4294967296 := by decide +kernel
+
+/-- "After every operation encoder and decoder report the same whole and fractional bit usage and the
+    same range": under the hypotheses of `decode_encode_partial`, after every prefix `pre` of the
+    operations the decoder (run on the finished buffer) and the encoder (at the time it had coded
+    `pre`) have the same `rng` and the same `nbits_total`, hence the same `ec_tell` and `ec_tell_frac`;
+    the decoder has returned the values of `pre` and its `val` is `top − code` (invariant D). -/
+theorem lockstep_rng (buf : List Nat) (size : Nat) (pre suf : List Op) (hs : size ≤ buf.length)
+    (hb : BytesOk buf) (hl : LegalRun (encInit buf size) (pre ++ suf))
+    (hn : (encodeAll buf size (pre ++ suf)).nbitsTotal < 4294967296)
+    (herr : (encodeAll buf size (pre ++ suf)).error = 0) :
+    let e := encRun (encInit buf size) pre
+    let d := (decRun (decInit ((encodeAll buf size (pre ++ suf)).buf.take
+      (encodeAll buf size (pre ++ suf)).storage) (encodeAll buf size (pre ++ suf)).storage) pre).2
+    d.rng = e.rng ∧ d.nbitsTotal = e.nbitsTotal ∧ tell d = tell e ∧ tellFrac d = tellFrac e ∧ RngOk d ∧
+    DecAll ((encodeAll buf size (pre ++ suf)).buf.take (encodeAll buf size (pre ++ suf)).storage)
+      (encodeAll buf size (pre ++ suf)).storage e d := by
+  intro e d
+  have h := (decode_encode_prefix buf size pre suf hs hb hl hn herr).2
+  have hr : RngOk e := by
+    have hl1 := (legalRun_append pre suf _ hl).1
+    have herrP : e.error = 0 := by
+      apply Classical.byContradiction; intro hne
+      have h2 := encRun_error_mono suf _ hne
+      rw [← encRun_append] at h2
+      exact encDone_error_mono _ h2 herr
+    have hnP : e.nbitsTotal < 4294967296 := by
+      have h1 := encRun_nbits_mono suf e
+      rw [← encRun_append] at h1
+      have h2 := encDone_nbitsTotal (encRun (encInit buf size) (pre ++ suf))
+      unfold encodeAll at hn
+      omega
+    have ri := (run_back pre _ (runInv_encInit buf size hs hb) hl1 hnP herrP).2.1
+    exact ⟨ri.inv.rng_lo, ri.inv.rng_hi⟩
+  obtain ⟨t1, t2⟩ := tell_eq_of_rn h.rc.rng_eq h.rc.nbits_eq
+  exact ⟨h.rc.rng_eq, h.rc.nbits_eq, t1, t2, by unfold RngOk; rw [h.rc.rng_eq]; exact hr, h⟩
+
+example : LegalRun (encInit (List.replicate 12 170) 12) (exampleOps.take 17 ++ exampleOps.drop 17) ∧
+    (encodeAll (List.replicate 12 170) 12 (exampleOps.take 17 ++ exampleOps.drop 17)).error = 0 := by
+  decide +kernel
+
+/-! ## Stage D — budget and memory -/
+
+/-- "If the bit usage reported at the end does not exceed 8 x buffer size, finishing the stream cannot
+    fail": for every legal operation list (as in `decode_encode_partial`) and every buffer (up to
+    5·10^8 bytes, so that `nbits_total` cannot overflow), if `ec_tell` before `ec_enc_done` is at most
+    `8 * storage` (the storage left by the last `ec_enc_shrink`), then no write of the whole run failed
+    and `ec_enc_done` leaves `error = 0`. -/
+theorem done_within_budget (buf : List Nat) (size : Nat) (ops : List Op) (hs : size ≤ buf.length)
+    (hb : BytesOk buf) (hl : LegalRun (encInit buf size) ops) (hsz : size ≤ 500000000)
+    (hfit : tell (encRun (encInit buf size) ops) ≤ 8 * ((encRun (encInit buf size) ops).storage : Int)) :
+    (encodeAll buf size ops).error = 0 :=
+  done_within_budget_size buf size ops hs hb hl hsz hfit
+
+example : tell (encRun (encInit (List.replicate 12 170) 12) exampleOps) = 86 ∧
+    (encRun (encInit (List.replicate 12 170) 12) exampleOps).storage = 11 := by decide +kernel
+
+/-- "bytes outside the buffer are untouched": for EVERY operation list (any parameters, legal or not,
+    `ec_enc_patch_initial_bits` included; only each `ec_enc_shrink` must satisfy its own assert
+    `offs + end_offs ≤ size` and not grow the buffer), whatever errors occur, the physical buffer
+    keeps its length and every byte at an index `≥ size` is unchanged after the calls and after
+    `ec_enc_done`; `storage` never exceeds the initial size and the write cursors stay inside it. -/
+theorem outside_untouched (buf : List Nat) (size : Nat) (ops : List Op) (hs : size ≤ buf.length)
+    (hk : ShrinksOk (encInit buf size) ops) :
+    (encRun (encInit buf size) ops).buf.length = buf.length ∧
+    (encRun (encInit buf size) ops).buf.drop size = buf.drop size ∧
+    (encodeAll buf size ops).buf.length = buf.length ∧
+    (encodeAll buf size ops).buf.drop size = buf.drop size ∧
+    (encodeAll buf size ops).storage ≤ size ∧
+    (encodeAll buf size ops).offs + (encodeAll buf size ops).endOffs ≤ (encodeAll buf size ops).storage := by
+  have f1 := encRun_frame ops (encInit buf size) (frame_encInit buf size hs) hk
+  have f2 := encDone_frame _ f1
+  exact ⟨f1.len, f1.out, f2.len, f2.out, f2.sto, f2.cur⟩
+
+example : ShrinksOk (encInit (List.replicate 12 170) 12) (exampleOps ++ [.patchInitial 1 1, .encode 7 3 0]) := by
+  decide +kernel
+
 end OpusProps.C08
